@@ -84,9 +84,9 @@ CHECKS["C15"] = dict(
    text="TLC checks Additive over all sequences of submissions from an 18-entry catalogue (new tables, added columns, forbidden edits of every kind, syntax errors at statement 1/2, multi-statement submissions mixing valid and forbidden edits). All 720 edges (schema state x submission) are executed on real agents whose tables hold rows: HTTP status, PRAGMA table_info/index_list, row counts, __corro_schema and the in-memory schema must equal the model after every submission (so a rejected submission leaves everything unchanged and re-applying changes nothing), and again after a restart on the same files.",
    note="finite catalogue over three tables; SQL generated from abstract definitions; restart = setup()+init_schema")
 CHECKS.update({
- "C01": repl("§6/C01", "TLC checks NoInvention / NoLoss (a node that claims a version has every change of it that has not lost globally) / Converged / MergeOfAll on every behaviour of small instances (any delivery order, duplication, re-cut, loss, batching, sync serving, restart); seeded walks over 2-3 real agents are accepted only if every step is the specification's step, and the final drain must reach quiescence with byte-identical tables equal to the merge of all acknowledged transactions."),
+ "C01": repl("§6/C01", "TLC checks NoInvention / NoLoss (a node that claims a version has every change of it that has not lost globally) / Converged / MergeOfAll on every behaviour of small instances (any delivery order, duplication, re-cut, loss, batching, sync serving, restart); seeded walks over 2-3 real agents are accepted only if every step is the specification's step, and the final drain must reach quiescence with byte-identical tables equal to the merge of all acknowledged transactions. Delete / re-insert histories of one row are decided by Sentinel.tla (any delivery order at a relay) and executed on three real agents through the real sync server."),
  "C03": repl("§6/C03", "TLC checks Atomic (nothing of a remote version visible before the step that applies it), CoveredIsPending and BufferedHaveRecord on the model; real walks with re-cut, overlapping, duplicated chunks from origin and relays in batches are validated step by step, the harness observes the apply trigger exactly when the specification says the version is covered, and the drain must resolve every partial version."),
- "C05": repl("§6/C05", "handle_need/process_sync are transcribed (live rows, gaps, buffered ranges, empties); TLC checks on every reachable server state and every need a client can compute that empties are only declared for held dead versions, changes lie inside their changeset's range and fully held live versions are answered with changesets tiling 0..=last; on the real agents every served need must produce exactly the message set the specification computes."),
+ "C05": repl("§6/C05", "handle_need/process_sync are transcribed (live rows, gaps, buffered ranges, empties); TLC checks on every reachable server state and every need a client can compute that empties are only declared for held dead versions, changes lie inside their changeset's range and fully held live versions are answered with changesets tiling 0..=last; on the real agents every served need must produce exactly the message set the specification computes, the produced changesets must tile the requested ranges, and the sentinel histories (Sentinel.tla) must lose no live change."),
  "C06": repl("§6/C06", "Restart (process death + setup + run_root initialisation) is an action enabled between any two commits; TLC checks acked-present / advertised-sound / covered-partials-retriggered with restarts anywhere; real walks copy the database files at a commit boundary and start a full agent with start_with_config on the copy, whose projected state must equal the specification's post-restart state and which must keep converging."),
  "C07": repl("§6/C07", "LocalTx / LocalNoEffect: real requests through api_v1_transactions incl. constraint, syntax, parameter-count failures at first/last statement and no-op updates; acknowledged version = previous + 1, nothing consumed or emitted otherwise, announced changesets tile 0..=last_seq and contain exactly the writes, own needed always empty; checked by TLC on the trace and directly on the recorded states."),
 })
